@@ -9,3 +9,4 @@
 #include "cmd_dual.inc"
 #include "cmd_tapbranch.inc"
 #include "cmd_display.inc"
+#include "cmd_kerl.inc"
